@@ -28,6 +28,9 @@ fn main() {
     // still data: the trace written so far is flushed by unwinding, a final panic event is appended, exit 0.
     let world = argv[1].clone();
     let outp = args.str("out", "");
+    if !outp.is_empty() {
+        util::start_watchdog(outp.clone(), 90);
+    }
     let r = std::panic::catch_unwind(std::panic::AssertUnwindSafe(|| run_world(&world, &args)));
     if let Err(e) = r {
         let msg = if let Some(s) = e.downcast_ref::<&str>() { s.to_string() } else if let Some(s) = e.downcast_ref::<String>() { s.clone() } else { "panic".to_string() };
